@@ -481,7 +481,7 @@ def variant(mol, spec):
     return pm, pos
 
 
-def renumberings(n, all_upto, reparse_upto):
+def renumberings(n, all_upto, reparse_upto, rotations=True):
     """The finite renumbering family of a molecule of n atoms."""
     ident = list(range(n))
     out = []
@@ -491,8 +491,9 @@ def renumberings(n, all_upto, reparse_upto):
         if n <= reparse_upto:
             out += [["reparse", p] for p in perms]
     else:
-        for s in range(1, n):
-            out.append(["renumber", ident[s:] + ident[:s]])
+        if rotations:
+            for s in range(1, n):
+                out.append(["renumber", ident[s:] + ident[:s]])
         out.append(["renumber", ident[::-1]])
     if n > reparse_upto:
         out += [["rooted", r] for r in range(n)]
@@ -518,7 +519,7 @@ def group_names():
 def renumber_case(item):
     """worker: one molecule, every renumbering of the family, every non-carbon atom,
     every group"""
-    all_upto, reparse_upto, smiles = item
+    all_upto, reparse_upto, rotations, smiles = item
     mol = Chem.MolFromSmiles(smiles)
     if mol is None:
         return None
@@ -526,7 +527,7 @@ def renumber_case(item):
     atoms = [a.GetIdx() for a in mol.GetAtoms() if a.GetSymbol() not in ("C", "H")]
     names = group_names()
     if not atoms:
-        return {"n": 0, "forms": 0, "pos": 0, "bad": []}
+        return {"n": 0, "forms": 0, "pos": 0, "skipped": 0, "bad": []}
     base = {(name, i): ask_group(mol, name, i) for name in names for i in atoms}
     n_pos = sum(1 for v in base.values() if v is True)
     n_eval = len(base)
@@ -536,12 +537,21 @@ def renumber_case(item):
             bad.append({"sub": "exception", "smiles": smiles, "natoms": n, "atom": i,
                         "group": name, "spec": None, "base": v, "got": v})
     seen = set()
-    base_sig = G(mol).signature()
-    for spec in renumberings(n, all_upto, reparse_upto):
+    base_g = G(mol)
+    base_sig = base_g.signature()
+    n_skipped = 0
+    for spec in renumberings(n, all_upto, reparse_upto, rotations):
         pm, pos = variant(mol, spec)
         if pm is None:
             continue
-        sig = G(pm).signature()
+        pg = G(pm)
+        if any(pg.bond.get((pos[a], pos[b])) != t for a, b, t in base_g.blist) or len(
+            pg.blist
+        ) != len(base_g.blist):
+            # RDKit perceived the re-parsed spelling differently: not the same graph
+            n_skipped += 1
+            continue
+        sig = pg.signature()
         for i in atoms:
             # the same atom/bond sequence asked at the same index is the same call
             if (sig, pos[i]) in seen or (sig == base_sig and pos[i] == i):
@@ -554,7 +564,8 @@ def renumber_case(item):
                     bad.append({"sub": "renumbering", "smiles": smiles, "natoms": n,
                                 "atom": i, "group": name, "spec": spec,
                                 "base": base[(name, i)], "got": got})
-    return {"n": n_eval, "forms": len({s for s, _ in seen}), "pos": n_pos, "bad": bad}
+    return {"n": n_eval, "forms": len({s for s, _ in seen}), "pos": n_pos,
+            "skipped": n_skipped, "bad": bad}
 
 
 # ----------------------------------------------------------------------------- run
@@ -637,11 +648,12 @@ def run(tier, seed):
     base, extra, lib, corpus = spaces(tier)
     small = base + extra
     # renumbering family: (all n! RenumberAtoms up to, all n! re-parsed spellings up to)
-    fam = (5, 4) if tier == "thorough" else (4, 3)
-    fam_extra = (4, 4)
+    fam = (5, 4, True) if tier == "thorough" else (4, 3, True)
+    fam_extra = (4, 4, False)
 
     # (b) + (c): soundness / completeness of pattern_match
-    items = [(True, s) for s in small + lib] + [(False, s) for s in corpus]
+    items = ([(True, s) for s in base + lib] + [(False, s) for s in extra]
+             + [(False, s) for s in corpus])
     rb = pmap("checks.c16:match_case", items, chunk=40, seed=seed)
     # (a): renumbering invariance of is_functional_group
     ritems = ([fam + (s,) for s in base] + [fam_extra + (s,) for s in extra]
@@ -659,7 +671,7 @@ def run(tier, seed):
         n_triples += r["triples"]
         n_pairs += r["pairs"]
         bad.extend(r["bad"])
-    n_group = n_forms = n_pos = 0
+    n_group = n_forms = n_pos = n_skipped = 0
     rbad = []
     for r in ra:
         if r is None:
@@ -667,6 +679,7 @@ def run(tier, seed):
         n_group += r["n"]
         n_forms += r["forms"]
         n_pos += r["pos"]
+        n_skipped += r["skipped"]
         rbad.extend(r["bad"])
 
     # smallest witness of every root cause first; a bounded number of cases per root cause
@@ -703,8 +716,9 @@ def run(tier, seed):
             "molecules, {} ({} molecules); parsed by RDKit from SMILES, implicit hydrogens, "
             "RDKit's aromaticity perception. (b,c) every atom x every distinct structure of the "
             "group table ({} = patterns, group cores and anti-patterns, distinct atom/bond "
-            "sequences) through pattern_match without pattern anchor, and for the universes and "
-            "the ring library also with every pattern anchor of the atom's element, against the "
+            "sequences) through pattern_match without pattern anchor, and for U(C,N,O,S;4), "
+            "U(C,N,O;5) and the ring library also with every pattern anchor of the atom's "
+            "element, against the "
             "reference: an injective map of pattern atoms to atoms of M that preserves the "
             "element (atomic number; aromatic and aliphatic atoms alike, charges, isotopes and "
             "hydrogen counts ignored - the code compares GetSymbol only, patterns carry none) "
@@ -727,7 +741,9 @@ def run(tier, seed):
                 "every validation-corpus molecule" if tier == "thorough"
                 else "every 10th validation-corpus molecule (sorted list, offset 0)",
                 len(corpus), n_pat, len(group_names_in_parent()), fam[0], fam[1],
-                " (4 and 4 for the molecules only in U(C,N,O,S;5))" if extra else "")),
+                " (for the molecules only in U(C,N,O,S;5): all n! of both kinds for n <= 4, the "
+                "reversal, the rooted spellings and the reversed spelling for n = 5)"
+                if extra else "")),
         "samples": [
             {"pattern_match": [small[len(small) // 2], 0, patterns_in_parent()[0]]},
             {"pattern_match": [lib[0], 0, patterns_in_parent()[-1]]},
@@ -743,6 +759,7 @@ def run(tier, seed):
         "group_queries": n_group,
         "group_positive_base_cases": n_pos,
         "distinct_renumbered_forms": n_forms,
+        "renumbered_forms_skipped_rdkit_perceives_other_bond_types": n_skipped,
         "failing_cases": len(bad) + len(rbad),
         "root_causes": [
             {"key": [k[0], k[1]], "cases": e["cases"], "molecules": len(e["molecules"]),
